@@ -47,7 +47,7 @@ func cmdFunc(args []string) int {
 		fmt.Println("ERROR:", fr.Err)
 		return 2
 	}
-	res := Discharge(fr, 20, nil)
+	res := Discharge(fr, 60, nil)
 	bad := 0
 	for _, r := range res {
 		fmt.Printf("%-12s %-10s %6.2fs %s\n", r.Status, r.Solver, r.Seconds, r.Name)
